@@ -1213,6 +1213,14 @@ impl<'a, S: Suite> W<'a, S> {
         let mut pks = self.pks.clone();
         let rot = self.t.usize(pks.len());
         pks.rotate_left(rot);
+        if self.t.chance(1, 4) {
+            // the same genuine key listed twice (the directory "need not be in any particular order" and may
+            // hold extra keys): the answer must not change
+            let d = pks[self.t.usize(pks.len())];
+            let at = self.t.usize(pks.len() + 1);
+            pks.insert(at, d);
+            self.out.probe("probe.frost.duplicate_key_in_directory");
+        }
         let mut kk = if mode == CoordMode::ThresholdTooLow { (self.tmin - 1).max(2).min(k) } else { k };
         if mode == CoordMode::Proper && k > self.tmin && self.t.chance(1, 2) {
             // a coordinator configured with the group's real threshold t assembling over a larger signer set
